@@ -88,7 +88,7 @@ MCReopenInv == (status = "open" /\ tx.st = "none") => SameObs(Replay(log), mem, 
 \* commit, or read-only) changes nothing for readers now or after reopen
 NoEffect ==
   [][(tx.st # "none" /\ tx'.st = "none" /\ (last' \in {"fail", "rollback"} \/ tx.st = "ro"))
-       => (SameObs(mem', mem, clock) /\ SameObs(Replay(log'), Replay(log), clock))]_mvars
+       => (SameObs(mem', tx.start, clock) /\ SameObs(Replay(log'), Replay(log), clock))]_mvars
 
 \* C13: the committed state is the transaction's own view (start state plus
 \* its operations in order)
